@@ -176,7 +176,7 @@ def check(run, tier, seed):
     for c in cases:
         run.count(('g', repr(c['ops'])), nontrivial=c['nedges'] >= 2)
     run.coverage.update(graphs=len(cases), individual_comparisons=total, comparisons_by_kind={k: v[0] for k, v in stats.items()},
-                        flavours={f: sum(1 for c in cases if c['flavour'] == f) for f in ('default', 'hostile', 'tsnames')})
+                        flavours={f: sum(1 for c in cases if c['flavour'] == f) for f in ('default', 'hostile', 'tsnames', 'casefold')})
     run.coverage['rule'] = ('Random graphs of both classes and their skeletons (hostile identifiers: spaces, newlines, quotes, the words lag / future; all '
                             'variable and edge types; nested metadata; floating nodes; graph metadata; plain graphs over time-series style names incl. '
                             'time-violating edges and unparsable names), serialised through real JSON text with include_meta on/off; model and '
@@ -193,7 +193,7 @@ def check(run, tier, seed):
     for c in cases + [None] * (50 if tier == 'quick' else 400):
         if c is None:
             kind = rng.choice(['Plain', 'TS'])
-            g, ops, gen, gm = SC.build_graph(rng, kind, rng.choice(['default', 'hostile', 'tsnames'] if kind == 'Plain' else ['default', 'hostile']))
+            g, ops, gen, gm = SC.build_graph(rng, kind, rng.choice(['default', 'hostile', 'tsnames', 'casefold'] if kind == 'Plain' else ['default', 'hostile', 'casefold']))
         else:
             kind = c['kind']
             g = (CausalGraph if kind == 'Plain' else TimeSeriesCausalGraph)(meta=copy.deepcopy(c['gmeta']))
